@@ -3,12 +3,24 @@
 -/
 import Avra.Spec.HexReader
 import Avra.Spec.Mnemonic
+import Avra.Spec.Gate
 namespace Avra.Spec
 open Avra
+
+/-- "GATE <disabled options, comma separated | -> <mnemonic> <operand tokens>" → ALLOW | DENY -/
+def gateCommand (args : List String) : Option String :=
+  match args with
+  | opts :: m :: toks =>
+    let dis := if opts == "-" then some [] else (opts.splitOn ",").mapM fun o => lookupS o disOptNames
+    match dis, opOfMnemonic m, (toks.filter (· ≠ "")).mapM iopOfToken with
+    | some d, some op, some as => some (if allowed d op as then "ALLOW" else "DENY")
+    | _, _, _ => some "BADREQ"
+  | _ => some "BADREQ"
 
 def specCommand (kind : String) (args : List String) : Option String :=
   match kind with
   | "ENC" => encCommand args
+  | "GATE" => gateCommand args
   | _ => none
 
 end Avra.Spec
